@@ -118,9 +118,19 @@ def s_sessions():
 # further suites (each reports the first mismatch it finds)
 # ---------------------------------------------------------------------------------------------------------------------
 import os as _os
+class SuiteTimeout(Exception):
+    pass
+def _alarm(signum, frame):
+    raise SuiteTimeout("suite exceeded its wall-clock budget (possibly a non-terminating call of the real code)")
 def suite(fn):
+    import signal
     try:
-        fn()
+        signal.signal(signal.SIGALRM, _alarm)
+        signal.alarm(900 if big else 240)
+        try:
+            fn()
+        finally:
+            signal.alarm(0)
     except Exception as e:
         import traceback
         report("suite-error:" + fn.__name__, exc=type(e).__name__, msg=str(e)[:200], tb=traceback.format_exc()[-400:])
